@@ -51,9 +51,13 @@ def split_program(body, cuts, nest, prefix="", spell="INCLUDE"):
     return main, files
 
 
-def make(pname, cuts, nest, prefix="", spell="INCLUDE"):
+def make(pname, cuts, nest, prefix="", spell="INCLUDE", extra=(), tag=""):
+    """extra: (index, statement) pairs inserted into the program text before it is split (e.g. an END, a second ORG or a
+    comment line that then falls inside an included file)"""
     prog = meta.PROGRAMS[pname]
     body_ = [x for x in prog["body"]]
+    for idx, st in sorted(extra, reverse=True):
+        body_.insert(idx, st)
 
     def body(ctx):
         texts, vals = meta.make_lits(ctx, prog)
@@ -71,7 +75,7 @@ def make(pname, cuts, nest, prefix="", spell="INCLUDE"):
         if ok:
             return True, info
         return ctx.known(PID, {"part": "split"}, {"cuts": cuts, "nested": nest}), info
-    return Ob("C19:split:%s:%s%s%s" % (pname, "-".join(map(str, cuts)), ":nested" if nest else "", ((":" + prefix.strip("/")) if prefix else "") + ((":" + spell) if spell != "INCLUDE" else "")), body, timeout=900,
+    return Ob("C19:split:%s:%s%s%s" % (pname, "-".join(map(str, cuts)), ":nested" if nest else "", ((":" + prefix.strip("/")) if prefix else "") + ((":" + spell) if spell != "INCLUDE" else "") + ((":" + tag) if tag else "")), body, timeout=900,
               tags={"part": "split"}, text="program %s split at %s%s" % (pname, cuts, " (nested includes)" if nest else ""))
 
 
@@ -135,6 +139,14 @@ def obligations(tier, seed):
         obs.append(make(pname, sorted(rnd.sample(range(1, n), 2)), True, prefix="./"))
         obs.append(make(pname, sorted(rnd.sample(range(1, n), 3)), True, spell="include"))        # lower-case nested includes
         obs.append(make(pname, sorted(rnd.sample(range(1, n), 4)), True, spell="Include"))
+        # statements that end or restart something, placed so that they fall INSIDE an included file
+        h = n // 2
+        for tag, st in (("end-inside", ("", "END", "")), ("org-inside", ("", "ORG", "$7000")), ("comment-inside", ("", "", "")),
+                        ("setdp-inside", ("", "SETDP", "$00")), ("nam-inside", ("", "NAM", "INNER"))):
+            obs.append(make(pname, [h - 1, h + 2], False, extra=[(h, st)], tag=tag))
+            if full or tag in ("end-inside", "org-inside"):
+                obs.append(make(pname, [h - 1, h + 2], True, extra=[(h, st)], tag=tag))
+                obs.append(make(pname, [1, h + 1], False, extra=[(h, st)], tag=tag + "-last"))
     obs.append(make_twice())
     obs.append(make_diag("missing", {}, ["A NOP", " INCLUDE nothere.asm", "B NOP"], "INCLUDE of a missing file"))
     obs.append(make_diag("missing-nested", {"a.asm": ["C NOP", " INCLUDE b.asm"]}, ["A NOP", " INCLUDE a.asm"], "nested INCLUDE of a missing file"))
